@@ -483,7 +483,18 @@ def run_c17(ctx):
         cases.append({"recipe": _cc("Cfg", _R("AtLeast", l1, l2, LEAF("b"), id="R", v=3 + k, s=1), dict(_cc("ccAny", LEAF("a"), LEAF("b"), LEAF("c"), id="X"), d="a"), id="cfg"),
                       "src": "handmade", "wide": True})
     ctx.pmap(drivers.drv_b64, _stamp(cases, "drv_b64"))
-    ctx.validate()
+    # the caller goes on with the unpacked object: TLC enumerates call histories of the API machine in which handles are re-bound to
+    # what from_b64(to_b64(.)) returned; every later answer is the answer of a freshly built model (run_histories validates all events)
+    cat = api_catalog()
+    pairs = [(cat["CfgD"], cat["M1"]), (cat["Cfg3"], cat["CfgP"]), (cat["M3"], cat["G1"])]
+    states = api_histories(ctx, "API_reload", pairs, ["reload_b64", "select", "cfg_poly", "to_json", "evaluate_all", "negate", "add"], 3, RULES()[:2],
+                            dictvals=())          # dictionaries over leaves only: the known overwrite (D2, a C09 finding) is not triggered here
+    hc = [c for c in history_cases(ctx, states, [p for pr in pairs for p in pr]) if any(x["op"] == "reload_b64" for x in c["calls"])]
+    if len(hc) > (600 if ctx.tier == "quick" else 6000):
+        ctx.notes.append("a seeded sample of the %d enumerated reload histories is replayed" % len(hc))
+        hc = ctx.rng.sample(hc, 600 if ctx.tier == "quick" else 6000)
+    ctx.region("history_continues_with_unpacked_object", len(hc))
+    run_histories(ctx, hc)
 
 # ------------------------------------------------------------------------------------------- polyhedra: C11, C12, C19, C20
 def S(x): return {"$set": [list(i) if isinstance(i, tuple) else i for i in x]}
@@ -882,7 +893,7 @@ RULES = lambda: [_R("Any", LEAF("p"), LEAF("q"), id="P1"), _cc("ccAny", LEAF("p"
                  _R("Any", LEAF("a"), LEAF("q"), id="X"), _R("AtMost", LEAF("p"), LEAF("q"), LEAF("r"), v=1)]
 
 ALL_OPS = ["evaluate", "evaluate_all", "assume", "reduce", "negate", "errors", "to_json", "to_b64", "to_poly", "flatten", "flags",
-           "cfg_poly", "default_prios", "leafs", "select", "add"]
+           "cfg_poly", "default_prios", "leafs", "select", "add", "reload_b64"]
 
 def _fn_dict(d):
     return {k: list(v) for k, v in d.items()} if isinstance(d, dict) else {}
@@ -1105,7 +1116,8 @@ PROPS = {
     "C20": {"run": run_c20, "clauses": {"construct", "partition", "from_list_bool", "from_list_int", "from_list_nested", "to_list", "to_list_nested", "split_Ab", "no_exception"}},
     "C16": {"run": run_c16, "clauses": {"back_is_model", "leaves_same", "points_complete", "equiv", "equiv_struct", "ids_explicit",
                                         "ids_generated_absent", "defaults_same", "dp_same", "poly_same", "no_exception"}},
-    "C17": {"run": run_c17, "clauses": {"struct_same", "text_same", "queries_same", "poly_struct_same", "poly_again_same", "select_same", "no_exception"}},
+    "C17": {"run": run_c17, "clauses": {"struct_same", "text_same", "queries_same", "poly_struct_same", "poly_again_same", "select_same", "no_exception",
+                                        "store_unchanged", "result_as_fresh", "result_as_state", "is_direct_build"}},
     "C10": {"run": run_c10, "clauses": {"accepted_welldef", "tree_accepted", "shared_accepted", "no_exception"}},
     "C01": {"run": run_c01, "clauses": {"points_complete", "cols_are_ids", "ev_total", "iff_top", "inactive_feasible", "no_exception"}},
     "C02": {"run": run_c02, "clauses": {"points_complete", "cols_are_ids", "cols_bounds", "complete", "sound_if_safe", "safe_built", "no_exception"}},
